@@ -265,8 +265,12 @@ fn events_json(events: &[Ev]) -> Value {
 	Value::Array(events.iter().map(Ev::to_json).collect())
 }
 
+/// The events without their payload digests, as rows [lvl, ev, c, mk, mi, vis, frame]. Label definitions
+/// (visit_last_label) are left out: the specification does not count them as items (Visit.tla, Items), so a
+/// skeleton can be compared row by row with the model's.
 fn skeleton(events: &[Ev]) -> Value {
-	Value::Array(events.iter().map(|e| json!([e.lvl, e.ev, e.c, e.mk, e.mi, e.vis, e.frame])).collect())
+	Value::Array(events.iter().filter(|e| !(e.lvl == "code" && e.ev == "visit_last_label"))
+		.map(|e| json!([e.lvl, e.ev, e.c, e.mk, e.mi, e.vis, e.frame])).collect())
 }
 
 /// `n` successive reads on one stream with a recording visitor; stops at the first failing read.
@@ -450,7 +454,7 @@ fn infos() -> Vec<Info> {
 	let mut out = vec![];
 	for (id, bytes) in catalogue() {
 		let Ok(r) = read_one(bytes, &Mask::all(), &Declines::default(), "rec") else { continue };
-		if !r.ok || r.pos as usize != bytes.len() {
+		if !r.ok {
 			continue;
 		}
 		let count = |ev: &str| r.events.iter().filter(|e| e.ev == ev).count();
